@@ -111,16 +111,20 @@ Section IssuanceP.
   (** ---- blind issuance: the issuer's own claims ---- *)
   Definition known_passes (sch : list claim_schema) (jc : nat * claim) : Prop :=
     exists t, nth_error sch (fst jc) = Some t /\ passes t (snd jc).
-  (** the last revocation claim in the walk, [d] if there is none *)
-  Definition last_rev (known : list (nat * claim)) (d : option bytes) : option bytes :=
-    fold_left (fun f jc => match snd jc with CRevocation i => Some i | _ => f end) known d.
-
   Lemma check_known_ok sch known : forall found r,
     check_known rx_match is_utf8 known sch found = Ok r <->
-    Forall (known_passes sch) known /\ r = last_rev known found.
+    Forall (known_passes sch) known /\
+    match found, rev_claims (map snd known) with
+    | None, [] => r = None
+    | None, [i] => r = Some i
+    | Some f, [] => r = Some f
+    | _, _ => False
+    end.
   Proof.
-    induction known as [|[j c] t IH]; intros found r; cbn [check_known last_rev fold_left].
-    - split; [intros H; injection H as <-; split; [constructor|reflexivity]|intros [_ ->]; reflexivity].
+    induction known as [|[j c] t IH]; intros found r; cbn [check_known map snd].
+    - cbn. split.
+      + intros H. injection H as <-. split; [constructor|]. destruct found; reflexivity.
+      + intros [_ H]. destruct found; subst; reflexivity.
     - destruct (nth_error sch j) as [ts|] eqn:En.
       2:{ split; [discriminate|]. intros [H _]. inversion H as [|? ? [t0 [P _]] _]; subst. cbn in P. congruence. }
       destruct (is_type c (cs_type ts)) eqn:Et; cbn [negb].
@@ -132,17 +136,24 @@ Section IssuanceP.
            congruence.
       apply schema_valid_true in Ev. destruct Ev as [_ Ev].
       assert (Pc : known_passes sch (j, c)) by (exists ts; cbn; split; [exact En|split; assumption]).
-      rewrite IH. cbn [snd]. unfold last_rev. split; intros [A B]; (split; [|exact B]); [constructor; assumption|inversion A; assumption].
+      assert (Hconf : forall X, (Forall (known_passes sch) ((j, c) :: t) /\ X) <-> (Forall (known_passes sch) t /\ X)).
+      { intros X. split; intros [A B]; (split; [|exact B]); [inversion A; subst; assumption|constructor; assumption]. }
+      destruct c as [v p|n|sc|i|d v tot]; cbn [rev_claims flat_map app];
+        try (rewrite Hconf; fold (rev_claims (map snd t)); apply IH).
+      destruct found as [f|].
+      + split; [discriminate|]. intros [_ H]. exfalso. fold (rev_claims (map snd t)) in H. destruct (rev_claims (map snd t)); exact H.
+      + rewrite Hconf. fold (rev_claims (map snd t)). rewrite (IH (Some i) r).
+        destruct (rev_claims (map snd t)) as [|k l]; [reflexivity|]. split; intros [A B]; (split; [exact A|]); [destruct B|destruct l; exact B || destruct B].
   Qed.
 
   (** the decision of blind issuance, for every schema, label policy, request and map of issuer-supplied
       claims: signed exactly when the counts add up, the label policy holds, every issuer-supplied claim
-      passes the type check and all validators at its own position, a revocation claim is among them, its
-      identifier has not been revoked and the suite accepts the request's context *)
+      passes the type check and all validators at its own position, exactly one of them is a revocation
+      claim, its identifier has not been revoked and the suite accepts the request's context *)
   Theorem blind_sign_decision sch blindable s req known ctx_ok s' i :
     blind_sign_credential rx_match is_utf8 idn sch blindable s req known ctx_ok = Ok (s', i) <->
     (length req + length known = length sch)%nat /\ labels_ok blindable req (map fst known) [] = true /\
-    Forall (known_passes sch) known /\ last_rev known None = Some i /\
+    Forall (known_passes sch) known /\ rev_claims (map snd known) = [i] /\
     already_revoked s (idn i) = false /\ ctx_ok = true /\ s' = record s (idn i).
   Proof.
     unfold blind_sign_credential.
@@ -152,20 +163,21 @@ Section IssuanceP.
     2:{ split; [discriminate|]. intros [_ [H _]]. discriminate. }
     destruct (check_known rx_match is_utf8 known sch None) as [[j|]| |] eqn:E.
     - apply check_known_ok in E. destruct E as [Hc Hr].
+      destruct (rev_claims (map snd known)) as [|k [|k2 l]] eqn:Er; try contradiction; [discriminate|]. injection Hr as <-.
       destruct (already_revoked s (idn j)) eqn:A.
-      + split; [discriminate|]. intros [_ [_ [_ [Hi [Ha _]]]]]. rewrite <- Hr in Hi. injection Hi as <-. congruence.
+      + split; [discriminate|]. intros [_ [_ [_ [Hi [Ha _]]]]]. injection Hi as <-. congruence.
       + destruct ctx_ok.
         * split.
-          -- intros H. injection H as <- <-. repeat split; try assumption; try reflexivity. symmetry; exact Hr.
-          -- intros [_ [_ [_ [Hi [_ [_ ->]]]]]]. rewrite <- Hr in Hi. injection Hi as <-. reflexivity.
+          -- intros H. injection H as <- <-. repeat split; try assumption; reflexivity.
+          -- intros [_ [_ [_ [Hi [_ [_ ->]]]]]]. injection Hi as <-. reflexivity.
         * split; [discriminate|]. intros [_ [_ [_ [_ [_ [H _]]]]]]. discriminate.
     - apply check_known_ok in E. destruct E as [Hc Hr].
-      split; [discriminate|]. intros [_ [_ [_ [Hi _]]]]. congruence.
+      split; [discriminate|]. intros [_ [_ [_ [Hi _]]]]. rewrite Hi in Hr. discriminate.
     - split; [discriminate|]. intros [_ [_ [Hc [Hi _]]]].
-      assert (X : check_known rx_match is_utf8 known sch None = Ok (Some i)) by (apply check_known_ok; split; [exact Hc|symmetry; exact Hi]).
+      assert (X : check_known rx_match is_utf8 known sch None = Ok (Some i)) by (apply check_known_ok; split; [exact Hc|rewrite Hi; reflexivity]).
       congruence.
     - split; [discriminate|]. intros [_ [_ [Hc [Hi _]]]].
-      assert (X : check_known rx_match is_utf8 known sch None = Ok (Some i)) by (apply check_known_ok; split; [exact Hc|symmetry; exact Hi]).
+      assert (X : check_known rx_match is_utf8 known sch None = Ok (Some i)) by (apply check_known_ok; split; [exact Hc|rewrite Hi; reflexivity]).
       congruence.
   Qed.
 
@@ -176,7 +188,8 @@ Section IssuanceP.
     assert (H : forall k f, check_known rx_match is_utf8 k sch f <> Panic).
     { induction k as [|[j c] t IH]; intros f; cbn [check_known]; [discriminate|].
       destruct (nth_error sch j) as [ts|]; [|discriminate]. destruct (negb _); [discriminate|].
-      destruct (schema_valid rx_match is_utf8 (cs_validators ts) c true) as [[|]|]; try discriminate. apply IH. }
+      destruct (schema_valid rx_match is_utf8 (cs_validators ts) c true) as [[|]|]; try discriminate.
+      destruct c; try apply IH. destruct f; [discriminate|apply IH]. }
     destruct (check_known rx_match is_utf8 known sch None) as [[j|]| |] eqn:E; try discriminate.
     - destruct (already_revoked s (idn j)); [discriminate|]. destruct ctx_ok; discriminate.
     - exfalso. exact (H _ _ E).
